@@ -130,6 +130,16 @@ class Verdicts:
             dp = OUT / ".work" / f"divergences-{self.prop}.json"
             dp.parent.mkdir(parents=True, exist_ok=True)
             dp.write_text(json.dumps(jsonable(self.divergences), indent=1, sort_keys=True))
+        if self.violations and os.environ.get("VERIF_DEBUG"):
+            vp = OUT / ".work" / f"violations-{self.prop}.json"
+            vp.parent.mkdir(parents=True, exist_ok=True)
+            vp.write_text(json.dumps(jsonable(self.violations[:5000]), sort_keys=True))
+        # replay files of earlier runs of this property are stale
+        for oldp in ([] if os.environ.get("VERIF_REPLAYING") else (OUT / "replays").glob(f"{self.prop}-*.json")):
+            try:
+                oldp.unlink()
+            except OSError:
+                pass
         paths = []
         seen = set()
         for v in self.violations:
